@@ -648,7 +648,7 @@ func (cs *ContractSet) LoadContractFile(path, pkgPath string) error {
 				i := strings.LastIndex(name, ".")
 				key = name[:i] + "." + recv + "." + name[i+1:]
 			}
-			cur = &Contract{Key: key, Header: t, Params: params, Results: results, Loops: map[int]*LoopSpec{}, File: path, Line: l.no, Opts: map[string]string{}}
+			cur = &Contract{Key: key, Header: t, Params: params, Results: results, Loops: map[int]*LoopSpec{}, File: path, Line: l.no, Opts: map[string]string{}, Trusted: pkgPath == ""}
 			if _, dup := cs.Contracts[key]; dup {
 				return fmt.Errorf("%s:%d: duplicate contract for %s", path, l.no, key)
 			}
